@@ -81,15 +81,15 @@ def c01(tier, seed, wd, replay):
 
 
 def _generic(prop, tier, seed, wd, replay, rule, quick_cfgs, thorough_cfgs, mandatory, sim=None, cached_first=False,
-             repo_tests=False):
+             repo_tests=False, impl_first=False):
     if replay:
         return replay_structural(prop, replay, wd)
     run = Run(prop, tier, seed)
     run.rule = rule
     nontrivial = set()
     cfgs = quick_cfgs if tier == "quick" else thorough_cfgs
-    for name, consts in cfgs:
-        nt, _ = ST.run_config(run, prop, name, consts, wd, caching=False)
+    for ci, (name, consts) in enumerate(cfgs):
+        nt, _ = ST.run_config(run, prop, name, consts, wd, caching=False, impl=(impl_first and ci == 0))
         nontrivial |= nt
     if repo_tests:
         from . import repo_traces
@@ -155,7 +155,7 @@ def c03(tier, seed, wd, replay):
                  lambda c: c.startswith("setv:") and "self-loop" in c and "new=fresh" in c]
     sim = (ST.cfg("links-sim-4x4", NV=4, InitBV=4, NL=4, MaxEnds=2, Kinds={"D", "U", "T", "D2", "U2"}), "num=300", 30)
     return _generic("C03", tier, seed, wd, replay, rule, quick, thorough, mandatory, sim=sim, cached_first=True,
-                    repo_tests=True)
+                    repo_tests=True, impl_first=True)
 
 
 LAWS = dict(NV=0, NU=2, NL=0, NLaw=4, Fams={"laws", "new"}, InitBV=0, InitBU=1, MaxArg=0)
